@@ -59,6 +59,37 @@ for it in range(R.n(40, 400)):
             R.check('distributions/one-entry-per-piece', c, len(m) == want and all(len(x) == want for x in p3), [len(m)] + [len(x) for x in p3], want)
     os.unlink(fn)
 
+# corners run on every seed: a single piece spanning the whole band with fewer integrations than the file; split_fil called again into
+# the same directory with another shift / integration count / input (what is on disk afterwards is the latest call's pieces)
+for asc in (True, False):
+    nch, T = 32, 8
+    fr = stg.Frame(fchans=nch, tchans=T, df=2.79, dt=1.0, fch1=6.0e9, ascending=asc, seed=5, t_start=0)
+    fr.data[:] = np.arange(T * nch, dtype=float).reshape(T, nch)
+    fn = os.path.join(R.tmp, f'corner{int(asc)}.fil')
+    fr.save_fil(fn)
+    full = stg.Frame(fn)
+    filedata = full.data if asc else full.data[:, ::-1]
+    for fchans, s, tch in ((32, 32, 3), (32, 4, 1), (20, 32, 2), (16, 16, 5)):
+        c = dict(nchans=nch, fchans=fchans, shift=s, tchans=tch, T=T, ascending=asc)
+        ps = R.guard('split_waterfall_generator/no-exception', c, lambda: [stg.Frame(w) for w in split_utils.split_waterfall_generator(fn, fchans, tchans=tch, f_shift=s)])
+        if ps is not None:
+            want = (nch - fchans) // s + 1
+            R.check('split_waterfall_generator/corner/count-shape-integrations', c, len(ps) == want and all(p.shape == (tch, fchans) for p in ps), [list(p.shape) for p in ps], [tch, fchans])
+    od = os.path.join(R.tmp, f'shared{int(asc)}')
+    for (fchans, s, tch) in ((16, 16, None), (16, 8, None), (16, 8, 3)):
+        c = dict(nchans=nch, fchans=fchans, shift=s, tchans=tch, ascending=asc, same_output_dir=True)
+        fns = R.guard('split_fil/no-exception', c, lambda: split_utils.split_fil(fn, od, fchans, tchans=tch, f_shift=s))
+        if fns is None:
+            continue
+        want = (nch - fchans) // s + 1
+        tt = T if tch is None else tch
+        ok = len(fns) == want
+        for i, pth in enumerate(fns[:want]):
+            g = stg.Frame(str(pth))
+            pd = g.data if asc else g.data[:, ::-1]
+            ok = ok and g.shape == (tt, fchans) and np.array_equal(pd, filedata[:tt, i * s:i * s + fchans])
+        R.check('split_fil/files-on-disk-are-this-call-s-pieces', c, ok, len(fns), want)
+
 # arrays: shifts equal to the tile sizes -> partition in row-major order; trimming keeps exactly the full-size tiles
 shapes = [(1, 1), (5, 7), (4, 6), (12, 14), (3, 1), (1, 9)] if R.tier != 'thorough' else [(h, w) for h in range(1, 8) for w in range(1, 9)] + [(12, 14)]
 for (H, W) in shapes:
